@@ -6,6 +6,9 @@ EXTENDS PruneScript
 RealSizeOf == [s |-> 308, m |-> 4008, l |-> 30008, x |-> 70008, M |-> 1000008]
 RealConnect == {<<1, "s">>, <<9, "m">>, <<30, "l">>, <<12, "x">>, <<100, "s">>, <<120, "m">>, <<289, "s">>, <<250, "l">>, <<200, "x">>}
 RealReorg == {<<1, "s">>, <<3, "l">>, <<12, "m">>, <<20, "x">>}
+RealSwap == {"s", "m", "l"}
+NoSwap == {}
+SmallSwap == {"a", "b"}
 \* --- automatic pruning: one-megabyte blocks (one file each in fast-prune mode)
 AutoConnect == {<<300, "M">>, <<200, "M">>, <<45, "M">>, <<10, "M">>, <<1, "M">>, <<20, "l">>}
 AutoReorg == {<<2, "M">>}
@@ -25,6 +28,9 @@ ManualScripts == <<
   \* mixed layout with a stale branch inside a file, lock inside the buffer of a file boundary
   << <<"connect", 120, "m">>, <<"reorg", 12, "m">>, <<"connect", 200, "x">>, <<"connect", 9, "m">>, <<"lock", "a", 139>>, <<"manual", 200>>, <<"lock", "a", 140>>, <<"manual", 200>>,
      <<"lock", "a", 155>>, <<"manual", 200>> >>,
+  \* blocks stored out of height order inside a file (second of a pair before the first): the file infos must still cover every block
+  << <<"connect", 20, "m">>, <<"swap", "m">>, <<"connect", 3, "m">>, <<"swap", "m">>, <<"swap", "l">>, <<"swap", "s">>, <<"swap", "s">>, <<"connect", 289, "s">>,
+     <<"connect", 30, "l">>, <<"manual", 28>>, <<"manual", 60>>, <<"manual", 400>> >>,
   \* short chain: nothing above height 0 may go
   << <<"connect", 100, "s">>, <<"manual", 50>>, <<"connect", 120, "m">>, <<"manual", 100>>, <<"auto">> >> >>
 \* the two corner cases of the clamps max(0, tip - 288) and max(1, lock - 11): files that hold nothing above height 0 / 1
